@@ -96,7 +96,7 @@ Definition check_c11_pinned := check_c11_with pinned.
 
 Inductive sstep :=
 | SFind (requester : N) (id : list N) (ds : list N)
-| SPing (ip port : N)
+| SPing (sender : N) (ip port : N)
 | SReady (bucket : N)      (* hook: the pending node of that bucket becomes ready now *)
 | SIter.                   (* a plain iteration over the table (applies every ready pending node) *)
 
@@ -142,11 +142,15 @@ Fixpoint c14_steps (t : table) (lv : val) (lseq : N) (maxn : nat) (rsize : val -
         let (t0, ps) := serve_findnode svc_config t lv requester id ds maxn rsize (1000000 + idx) in
         let t' := drain_applied t0 in
         (t', enc_list (enc_packet rsize) ps ++ [hashN (dump t')])
-      | SPing ip port =>
-        (t, match serve_ping lseq ip port with
-            | Some p => [1; pg_seq p; pg_ip p; pg_port p]
-            | None => [0]
-            end)
+      | SPing sender ip port =>
+        (* handle_rpc_request looks the sender up in the routing table first (is its record older than
+           the sequence number it announces?): KBucketsTable::entry applies the pending node of the
+           sender's bucket if its time has come *)
+        let t' := drain_applied (fst (t_entry svc_config t sender ALook (1000000 + idx))) in
+        (t', match serve_ping lseq ip port with
+             | Some p => [1; pg_seq p; pg_ip p; pg_port p]
+             | None => [0]
+             end ++ [hashN (dump t')])
       | SReady i =>
         let t' := t_force_ready t (N.to_nat i) (1000000 + idx) in (t', [hashN (dump t')])
       | SIter =>
